@@ -38,9 +38,10 @@ def analyse(ctx, prog, chk):
     chk.used_program(prog)
     fam = family(prog)
     ne = expsib.rule(ctx, prog, chk, fam, re.compile(r"^fp\d+_set_dig$"))
+    nb = expsib.rule_loop_bits(ctx, prog, chk, fam)
     na, used = alias.rule(ctx, prog, chk, lambda fn: fn.rfile.startswith(("src/fpx/", "src/low/easy/relic_fpx")), ALIAS_OK)
     nc = c02.rule_const_in(ctx, prog, chk, prefix=("src/fpx/", "src/low/easy/relic_fpx"))
-    return {"exp": ne, "siblings": len(fam), "alias": na, "const": nc}
+    return {"exp": ne, "siblings": len(fam), "alias": na, "const": nc, "bits": nb}
 
 
 def selfcheck(ctx, prog, chk):
@@ -51,6 +52,7 @@ def run(ctx, chk):
     c = analyse(ctx, ctx.program("BASE"), chk)
     chk.floor("EXP-SIB", "exponentiation siblings of the towers", c["siblings"], 35)
     chk.floor("ALIAS-RW", "output/input pairs of the same tower type", c["alias"], 300)
+    chk.floor("LOOP-BITS", "bit scans of exponents", c["bits"], 10)
     chk.floor("CONST-IN", "const pointer parameters of the module", c["const"], 400)
     analyse(ctx, ctx.program("P381"), chk)
     if chk.tier == "thorough":
